@@ -204,7 +204,7 @@ static spif_obj_t make(int k, const op_t *o)
     long variant = o->a[2], src = o->na > 3 ? o->a[3] : 0;
     char *t = cstr(o);
     spif_obj_t r = NULL;
-    if (src > 0 && (k == K_STR || k == K_USTR || k == K_MBUFF)) {
+    if (src > 0 && (k == K_STR || k == K_USTR || k == K_MBUFF || k == K_TOK)) {
         /* made from a descriptor (1 streaming, 2 regular file) or a stdio stream (3 not seekable, 4 seekable), possibly positioned
            at its end, possibly failing: a constructor that gives up must not keep anything (it has nothing to hand to the caller) */
         size_t len = o->slen, pos = o->na > 4 && o->a[4] > 0 ? (size_t)o->a[4] : 0;
@@ -212,11 +212,11 @@ static spif_obj_t make(int k, const op_t *o)
         simfd_hard_error = 0; simfd_eagain = 0;
         if (src <= 2) {
             int fd = simfd_new_src(0, o->s, len, src == 2, 0, src == 2 ? pos : 0);
-            r = k == K_STR ? SPIF_OBJ(spif_str_new_from_fd(fd)) : k == K_USTR ? SPIF_OBJ(spif_ustr_new_from_fd(fd)) : SPIF_OBJ(spif_mbuff_new_from_fd(fd));
+            r = k == K_STR ? SPIF_OBJ(spif_str_new_from_fd(fd)) : k == K_USTR ? SPIF_OBJ(spif_ustr_new_from_fd(fd)) : k == K_TOK ? SPIF_OBJ(spif_tok_new_from_fd(fd)) : SPIF_OBJ(spif_mbuff_new_from_fd(fd));
             simfd_close_harness(0, fd);
         } else {
             FILE *fp = simfd_cookie_stream(o->s, len, src == 4, src == 4 ? pos : 0);
-            r = k == K_STR ? SPIF_OBJ(spif_str_new_from_fp(fp)) : k == K_USTR ? SPIF_OBJ(spif_ustr_new_from_fp(fp)) : SPIF_OBJ(spif_mbuff_new_from_fp(fp));
+            r = k == K_STR ? SPIF_OBJ(spif_str_new_from_fp(fp)) : k == K_USTR ? SPIF_OBJ(spif_ustr_new_from_fp(fp)) : k == K_TOK ? SPIF_OBJ(spif_tok_new_from_fp(fp)) : SPIF_OBJ(spif_mbuff_new_from_fp(fp));
             fclose(fp);
         }
         probe_hit(r ? "stream_constructor_ok" : "stream_constructor_gave_up");
@@ -233,8 +233,8 @@ static spif_obj_t make(int k, const op_t *o)
     case K_USTR: r = variant % 3 == 0 ? SPIF_OBJ(spif_ustr_new()) : SPIF_OBJ(spif_ustr_new_from_ptr((spif_charptr_t)t)); break;
     case K_MBUFF:
         if (variant % 3 == 0) r = SPIF_OBJ(spif_mbuff_new());
-        else if (variant % 3 == 1) r = SPIF_OBJ(spif_mbuff_new_from_buff((spif_byteptr_t)t, (spif_memidx_t)o->slen, (spif_memidx_t)(o->slen + (size_t)(variant % 5))));
-        else r = SPIF_OBJ(spif_mbuff_new_from_ptr((spif_byteptr_t)t, (spif_memidx_t)o->slen));
+        else if (variant % 3 == 1) r = SPIF_OBJ(spif_mbuff_new_from_buff((spif_byteptr_t)o->s, (spif_memidx_t)o->slen, (spif_memidx_t)(o->slen + (size_t)(variant % 5))));
+        else r = SPIF_OBJ(spif_mbuff_new_from_ptr((spif_byteptr_t)o->s, (spif_memidx_t)o->slen));
         break;
     case K_PAIR: {
         spif_obj_t a = new_elem(variant % 5), b = new_elem(50 + variant % 7);
@@ -249,7 +249,11 @@ static spif_obj_t make(int k, const op_t *o)
         r = variant % 5 == 0 ? SPIF_OBJ(spif_tok_new()) : SPIF_OBJ(spif_tok_new_from_ptr((spif_charptr_t)t));
         if (r && variant % 5 >= 2) { spif_tok_eval(SPIF_TOK(r)); probe_hit("tok_evaluated"); }
         break;
-    case K_URL: r = variant % 6 == 0 ? SPIF_OBJ(spif_url_new()) : SPIF_OBJ(spif_url_new_from_ptr((spif_charptr_t)t)); break;
+    case K_URL:
+        if (variant % 6 == 0) r = SPIF_OBJ(spif_url_new());
+        else if (variant % 6 == 5) { spif_str_t so = spif_str_new_from_ptr((spif_charptr_t)t); r = SPIF_OBJ(spif_url_new_from_str(so)); spif_str_del(so); }      /* from a string object that is gone afterwards */
+        else r = SPIF_OBJ(spif_url_new_from_ptr((spif_charptr_t)t));
+        break;
     case K_REGEXP:
         r = variant % 6 == 0 ? SPIF_OBJ(spif_regexp_new()) : SPIF_OBJ(spif_regexp_new_from_ptr((spif_charptr_t)t));
         if (r && variant % 6 >= 2) { if (variant % 2) spif_regexp_set_flags(SPIF_REGEXP(r), (spif_charptr_t)"i"); spif_regexp_compile(SPIF_REGEXP(r)); probe_hit("regexp_compiled"); }
@@ -273,6 +277,19 @@ static void mutate(int slot, const op_t *o)
     switch (k) {
     case K_STR: {
         spif_str_t s = SPIF_STR(x);
+        long mode = o->na > 2 ? o->a[2] : 0;
+        if (mode) {
+            long L = s->len;
+            switch (mode % 5) {
+            case 0: spif_str_splice_from_ptr(s, (spif_stridx_t)(L ? how % L : 0), (spif_stridx_t)((how / 7) % 3), (spif_charptr_t)t); break;
+            case 1: spif_str_prepend_from_ptr(s, (spif_charptr_t)t); break;
+            case 2: spif_str_append_char(s, 'A'); break;
+            case 3: spif_str_downcase(s); break;
+            default: { spif_str_t tmp = spif_str_new_from_ptr((spif_charptr_t)t); spif_str_splice(s, (spif_stridx_t)(L ? how % L : 0), 1, tmp); spif_str_prepend(s, tmp); spif_str_del(tmp); break; }
+            }
+            probe_hit("extended_mutator");
+            break;
+        }
         switch (how % 8) {
         case 0: spif_str_append_from_ptr(s, (spif_charptr_t)t); break;
         case 1: spif_str_prepend_char(s, 'P'); break;
@@ -287,11 +304,37 @@ static void mutate(int slot, const op_t *o)
     }
     case K_USTR: {
         spif_ustr_t s = (spif_ustr_t)x;
+        long mode = o->na > 2 ? o->a[2] : 0;
+        if (mode) {
+            long L = s->len;
+            switch (mode % 5) {
+            case 0: spif_ustr_splice_from_ptr(s, (spif_ustridx_t)(L ? how % L : 0), (spif_ustridx_t)((how / 7) % 3), (spif_charptr_t)t); break;
+            case 1: spif_ustr_sprintf(s, (spif_charptr_t)"%s-%ld", t, how); break;
+            case 2: spif_ustr_trim(s); break;
+            case 3: spif_ustr_reverse(s); break;
+            default: spif_ustr_upcase(s); break;
+            }
+            probe_hit("extended_mutator");
+            break;
+        }
         if (how % 3 == 0) spif_ustr_append_from_ptr(s, (spif_charptr_t)t); else if (how % 3 == 1) spif_ustr_clear(s, 'u'); else spif_ustr_prepend_char(s, 'U');
         break;
     }
     case K_MBUFF: {
         spif_mbuff_t m = SPIF_MBUFF(x);
+        long mode = o->na > 2 ? o->a[2] : 0;
+        if (mode) {
+            long L = m->len;
+            switch (mode % 5) {
+            case 0: spif_mbuff_splice_from_ptr(m, (spif_memidx_t)(L ? how % L : 0), (spif_memidx_t)((how / 7) % 3), (spif_byteptr_t)o->s, (spif_memidx_t)o->slen); break;
+            case 1: spif_mbuff_prepend_from_ptr(m, (spif_byteptr_t)o->s, (spif_memidx_t)o->slen); break;
+            case 2: spif_mbuff_trim(m); break;
+            case 3: { spif_mbuff_t tmp = spif_mbuff_new_from_ptr((spif_byteptr_t)o->s, (spif_memidx_t)o->slen); if (tmp) { spif_mbuff_append(m, tmp); spif_mbuff_del(tmp); } break; }
+            default: { spif_mbuff_t tmp = spif_mbuff_new_from_ptr((spif_byteptr_t)o->s, (spif_memidx_t)o->slen); if (tmp) { spif_mbuff_splice(m, (spif_memidx_t)(L ? how % L : 0), 1, tmp); spif_mbuff_del(tmp); } break; }
+            }
+            probe_hit("extended_mutator");
+            break;
+        }
         if (how % 4 == 0) spif_mbuff_append_from_ptr(m, (spif_byteptr_t)t, (spif_memidx_t)o->slen);
         else if (how % 4 == 1) spif_mbuff_clear(m, 'm'); else if (how % 4 == 2) spif_mbuff_reverse(m); else spif_mbuff_sprintf(m, (spif_charptr_t)"%ld", how);
         break;
@@ -313,6 +356,14 @@ static void mutate(int slot, const op_t *o)
             spif_tok_set_tokens(tk, l); probe_hit("tok_tokens_handed_in");
         }
         else if (mode == 3) { spif_tok_set_sep(tk, (spif_str_t)NULL); probe_hit("property_set_to_null"); }
+        else if (mode >= 4 && mode <= 6) {
+            /* other quote / escape characters than the defaults, then evaluate with them */
+            static const char qc[] = { '`', '|', '#', 0 };
+            char c = qc[how % 4];
+            if (mode == 4) spif_tok_set_quote(tk, c); else if (mode == 5) spif_tok_set_dquote(tk, c); else spif_tok_set_escape(tk, c);
+            spif_tok_eval(tk);
+            probe_hit("tok_quote_characters_changed");
+        }
         else if (how % 4 == 0) { spif_tok_set_src(tk, spif_str_new_from_ptr((spif_charptr_t)t)); probe_hit("property_setter"); }
         else if (how % 4 == 1) { spif_tok_set_sep(tk, spif_str_new_from_ptr((spif_charptr_t)":,")); probe_hit("property_setter"); }
         else { if (tk->tokens) probe_hit("tok_reevaluated"); spif_tok_eval(tk); }
@@ -323,9 +374,14 @@ static void mutate(int slot, const op_t *o)
         long mode = o->na > 2 ? o->a[2] : 0;
         if (mode) {
             /* a component taken away again */
-            switch (mode % 4) { case 0: spif_url_set_host(u, (spif_str_t)NULL); break; case 1: spif_url_set_port(u, (spif_str_t)NULL); break;
-                                case 2: spif_url_set_path(u, (spif_str_t)NULL); break; default: spif_url_set_user(u, (spif_str_t)NULL); break; }
-            probe_hit("property_set_to_null");
+            switch (mode) {
+            case 1: spif_url_set_port(u, (spif_str_t)NULL); break; case 2: spif_url_set_path(u, (spif_str_t)NULL); break; case 3: spif_url_set_user(u, (spif_str_t)NULL); break;
+            case 4: spif_url_set_host(u, (spif_str_t)NULL); break;
+            case 5: spif_url_set_user(u, spif_str_new_from_ptr((spif_charptr_t)"usr")); break; case 6: spif_url_set_passwd(u, spif_str_new_from_ptr((spif_charptr_t)"pw")); break;
+            case 7: spif_url_set_path(u, spif_str_new_from_ptr((spif_charptr_t)"/p/q")); break;
+            case 8: spif_url_set_query(u, (spif_str_t)NULL); break; default: spif_url_set_proto(u, (spif_str_t)NULL); break;
+            }
+            probe_hit(mode >= 5 && mode <= 7 ? "property_setter" : "property_set_to_null");
             break;
         }
         switch (how % 5) {
@@ -339,11 +395,39 @@ static void mutate(int slot, const op_t *o)
     }
     case K_REGEXP: {
         spif_regexp_t r = SPIF_REGEXP(x);
+        long mode = o->na > 2 ? o->a[2] : 0;
+        if (mode) { static const char *fl[] = { "s", "x", "im", "" }; spif_regexp_set_flags(r, (spif_charptr_t)fl[mode % 4]); spif_regexp_compile(r); probe_hit("extended_mutator"); break; }
         if (how % 3 == 0) spif_regexp_set_flags(r, (spif_charptr_t)(how % 2 ? "i" : "m")); else { if (r->data) probe_hit("regexp_recompiled"); spif_regexp_compile(r); }
         break;
     }
     default:
-        if (how % 3) cont_add(x, k, how % 7, how);
+        if (o->na > 2 && o->a[2]) {
+            long mode = o->a[2];
+            spif_obj_t pr = new_elem(how % 7);
+            if (IS_LIST(k)) {
+                /* the by-value operations on a list that may hold placeholders, duplicates and any order */
+                if (mode % 3 == 0) { spif_obj_t e = SPIF_LIST_REMOVE(x, pr); if (e) SPIF_OBJ_DEL(e); }
+                else if (mode % 3 == 1) { spif_obj_t e = new_elem(how % 7); if (!SPIF_LIST_INSERT(x, e)) SPIF_OBJ_DEL(e); }
+                else SPIF_LIST_CONTAINS(x, pr);
+            } else if (IS_VEC(k)) { SPIF_VECTOR_CONTAINS(x, pr); SPIF_VECTOR_COUNT(x); }
+            else {
+                if (mode % 4 == 0) { spif_obj_t vv = new_elem(100 + how % 9); spif_objpair_t pp = spif_objpair_new_from_both(pr, vv); SPIF_MAP_SET(x, pp, (spif_obj_t)NULL); spif_objpair_del(pp); SPIF_OBJ_DEL(vv); probe_hit("set_via_pair"); }
+                else if (mode % 4 == 1) {
+                    /* keys / values / pairs added to a list the caller brings along */
+                    spif_list_t given = how % 2 ? SPIF_LIST_NEW(dlinked_list) : SPIF_LIST_NEW(linked_list), got;
+                    if (how % 3) SPIF_LIST_APPEND(given, new_elem(9));
+                    got = how % 3 == 0 ? SPIF_MAP_GET_KEYS(x, given) : how % 3 == 1 ? SPIF_MAP_GET_VALUES(x, given) : SPIF_MAP_GET_PAIRS(x, given);
+                    if (got && got != given) SPIF_LIST_DEL(got);
+                    SPIF_LIST_DEL(given);
+                    probe_hit("map_list_into_given");
+                }
+                else if (mode % 4 == 2) { spif_iterator_t it = SPIF_MAP_ITERATOR(x); if (it) { if (SPIF_ITERATOR_HAS_NEXT(it)) SPIF_ITERATOR_NEXT(it); SPIF_ITERATOR_DEL(it); } }
+                else { SPIF_MAP_HAS_KEY(x, pr); SPIF_MAP_COUNT(x); }
+            }
+            SPIF_OBJ_DEL(pr);
+            probe_hit("extended_mutator");
+        }
+        else if (how % 3) cont_add(x, k, how % 7, how);
         else if (IS_LIST(k)) { spif_obj_t e = SPIF_LIST_REMOVE_AT(x, (spif_listidx_t)(how % 5) - 2); if (e) SPIF_OBJ_DEL(e); SPIF_LIST_REVERSE(x); }
         else if (IS_VEC(k)) { spif_obj_t pr = new_elem(how % 7), e = SPIF_VECTOR_REMOVE(x, pr); SPIF_OBJ_DEL(pr); if (e) { SPIF_OBJ_DEL(e); probe_hit("removed_element_deleted_by_caller"); } }
         else { spif_obj_t pr = new_elem(how % 7), e = SPIF_MAP_REMOVE(x, pr); SPIF_OBJ_DEL(pr); if (e) { SPIF_OBJ_DEL(e); probe_hit("removed_element_deleted_by_caller"); } }
@@ -410,6 +494,7 @@ static void query(int slot, const op_t *o)
 
 /* ------------------------------------------------------------------ comparison laws (C05) */
 static int sgn(spif_cmp_t c) { return c == SPIF_CMP_LESS ? -1 : c == SPIF_CMP_GREATER ? 1 : c == SPIF_CMP_EQUAL ? 0 : 99; }
+static obuf_t last[NSLOT], cur;
 static void comp_laws(void)
 {
     int c[NSLOT][NSLOT];
@@ -428,6 +513,13 @@ static void comp_laws(void)
         for (int j = 0; j < NSLOT; j++) {
             if (c[i][j] == 100 || i == j) continue;
             probe_hit("comp_pair");
+            /* texts and byte sequences compare EQUAL exactly when they are the same sequence -- spare capacity is not part of the value,
+               and a sequence is never equal to a longer one that begins with it */
+            if (okind[i] == K_STR || okind[i] == K_USTR || okind[i] == K_MBUFF) {
+                int same = last[i].len == last[j].len && !memcmp(last[i].b, last[j].b, last[i].len);
+                if (same != (c[i][j] == 0)) FAIL("MISMATCH", "comp-value", okind[i], "comp returned %d for {%.40s} and {%.40s}", c[i][j], last[i].b, last[j].b);
+                if (same) probe_hit("comp_of_equal_values");
+            }
             if (c[i][j] != -c[j][i]) FAIL("MISMATCH", "comp-antisymmetric", okind[i], "comp(a,b)=%d but comp(b,a)=%d", c[i][j], c[j][i]);
             for (int l = 0; l < NSLOT; l++) {
                 if (c[j][l] == 100 || c[i][l] == 100) continue;
@@ -440,7 +532,6 @@ static void comp_laws(void)
 
 /* ------------------------------------------------------------------ executor */
 extern int protosim_skip_ledger;
-static obuf_t last[NSLOT], cur;
 static int op_objkind[PLAN_MAXOPS];
 static void del_obj(int s) { if (obj[s]) { SPIF_OBJ_DEL(obj[s]); obj[s] = NULL; } }
 
@@ -511,6 +602,9 @@ static void exec_common(const plan_t *p)
             observe(&cur, q);
             if (q != s && q != touched2 && (cur.len != last[q].len || memcmp(cur.b, last[q].b, cur.len)))
                 FAIL("MISMATCH", "independence", okind[q], "%s on slot %d changed what slot %d observes as: {%.70s} -> {%.70s}", k, s, q, last[q].b, cur.b);
+            /* copying and querying an object leave the object itself as it was, too */
+            if (q == s && (!strcmp(k, "dup") || !strcmp(k, "query")) && (cur.len != last[q].len || memcmp(cur.b, last[q].b, cur.len)))
+                FAIL("MISMATCH", "source-changed", okind[q], "%s changed what its own subject observes as: {%.70s} -> {%.70s}", k, last[q].b, cur.b);
             ob_reset(&last[q]); ob_add(&last[q], cur.b, cur.len);
             tr_bytes(cur.b, cur.len);
         }
@@ -555,7 +649,7 @@ static void gen_common(plan_t *p, rng_t *r, int c05)
             /* comparison laws need several objects of one class: bias kinds towards a per-run focus */
             int kind = rng_chance(r, 1, 2) ? focus : (int)rng_below(r, K_NKINDS);
             const char *t = texts[rng_below(r, sizeof(texts) / sizeof(texts[0]))];
-            if ((kind == K_STR || kind == K_USTR || kind == K_MBUFF) && rng_chance(r, 1, 4)) {
+            if ((kind == K_STR || kind == K_USTR || kind == K_MBUFF || kind == K_TOK) && rng_chance(r, 1, 4)) {
                 /* stream constructors: empty sources, sources positioned at their end, short reads, EINTR, hard errors */
                 static const int outs[] = { FO_SHORT, FO_SHORT, FO_EINTR, FO_EINTR, FO_EIO, FO_FULL };
                 long src = rng_range(r, 1, 4), big = rng_chance(r, 1, 5);
@@ -568,16 +662,18 @@ static void gen_common(plan_t *p, rng_t *r, int c05)
                 for (int q = 0; q < nf; q++) { int out = outs[rng_below(r, 6)]; op_fault(o, FAULT(FC_READ, out, out == FO_SHORT ? rng_range(r, 1, 100) : 0)); }
             } else {
                 o = plan_op(p, 0, "mk", 3, (long)s, (long)kind, (long)rng_below(r, 1000));
-                op_str(o, t, strlen(t));
+                if (kind == K_MBUFF && rng_chance(r, 1, 3)) { static const char bin[] = "\0a\0b\xff\x80\0z"; op_str(o, bin, 1 + rng_below(r, 8)); }       /* bytes a C string cannot hold */
+                else op_str(o, t, strlen(t));
             }
             ex[s] = 1; kinds[s] = kind;
             continue;
         }
         if (k < 35) {
             const char *t = texts[rng_below(r, sizeof(texts) / sizeof(texts[0]))];
-            if ((kinds[s] == K_TOK || kinds[s] == K_URL) && rng_chance(r, 1, 5)) o = plan_op(p, 0, "mut", 3, (long)s, (long)rng_below(r, 1000), (long)rng_range(r, 1, 3));
+            if (rng_chance(r, 1, 4)) o = plan_op(p, 0, "mut", 3, (long)s, (long)rng_below(r, 1000), (long)rng_range(r, 1, kinds[s] == K_URL ? 9 : kinds[s] == K_TOK ? 6 : 8));
             else o = plan_op(p, 0, "mut", 2, (long)s, (long)rng_below(r, 1000));
-            op_str(o, t, strlen(t));
+            if (kinds[s] == K_MBUFF && rng_chance(r, 1, 3)) { static const char bin[] = "a\0b\xff\x80\0\0z"; op_str(o, bin, 1 + rng_below(r, 8)); }       /* bytes a C string cannot hold */
+            else op_str(o, t, strlen(t));
         }
         else if (k < 50) plan_op(p, 0, "query", 2, (long)s, (long)rng_below(r, 1000));
         else if (k < 72) { int d = (int)rng_below(r, NSLOT); if (!ex[d]) { plan_op(p, 0, "dup", 2, (long)s, (long)d); ex[d] = 1; kinds[d] = kinds[s]; } }
